@@ -39,6 +39,9 @@ const ED25519_SPKI_OID: &[u8] = &[0x2b, 0x65, 0x70];
 /// 1.2.840.10045.2.1 ecPublicKey (Elliptic Curve public key cryptography)
 const ECC_SPKI_OID: &[u8] = &[0x2a, 0x86, 0x48, 0xce, 0x3d, 0x02, 0x01];
 
+/// 1.2.840.10045.3.1.7 prime256v1 (`ANSI X9.62 named elliptic curve`)
+const PRIME256V1_OID: &[u8] = &[0x2a, 0x86, 0x48, 0xce, 0x3d, 0x03, 0x01, 0x07];
+
 /// The length of an ed25519 private key in bytes
 const ED25519_PRIVATE_KEY_LENGTH: usize = 32;
 
@@ -776,12 +779,24 @@ impl PublicKey {
                     let typ = KeyType::from_oid(typ.as_slice_less_safe())
                         .map_err(|_| derp::Error::WrongValue)?;
 
-                    if typ == KeyType::Ecdsa {
-                        let _alg_oid =
-                            derp::expect_tag_and_get_value(input, Tag::Oid)?;
-                    } else {
-                        // for RSA / ed25519 this is null, so don't both parsing it
-                        derp::read_null(input)?;
+                    // AlgorithmIdentifier parameters
+                    match typ {
+                        // RFC 5480: the named curve
+                        KeyType::Ecdsa => {
+                            let _curve_oid = derp::expect_tag_and_get_value(
+                                input,
+                                Tag::Oid,
+                            )?;
+                        }
+                        // RFC 8410: absent (a NULL written by older
+                        // versions of this library is tolerated)
+                        KeyType::Ed25519 => {
+                            if !input.at_end() {
+                                derp::read_null(input)?;
+                            }
+                        }
+                        // RFC 3279: NULL
+                        _ => derp::read_null(input)?,
                     }
                     Ok(typ)
                 })?;
@@ -1164,7 +1179,15 @@ fn write_spki(
             der.sequence(|der| match key_type.as_oid().ok() {
                 Some(tag) => {
                     der.element(Tag::Oid, tag)?;
-                    der.null()
+                    // AlgorithmIdentifier parameters
+                    match key_type {
+                        // RFC 5480: the named curve
+                        KeyType::Ecdsa => der.element(Tag::Oid, PRIME256V1_OID),
+                        // RFC 8410: absent
+                        KeyType::Ed25519 => Ok(()),
+                        // RFC 3279: NULL
+                        _ => der.null(),
+                    }
                 }
                 None => Err(derp::Error::WrongValue),
             })?;
